@@ -416,6 +416,9 @@ func (d *Driver) Apply(idx int, st *Step) bool {
 		if d.wr == nil {
 			return d.fail("protocol", "no refresh in progress")
 		}
+		if LateCancel && d.wr.pending != nil && d.wr.pending.err == nil && d.wr.parked != nil { // (a source that fails under a cancelled context is a cancelled refresh)
+			d.wr.pending.then = d.wr.cancel // the caller gives up when the last source has its answer
+		}
 		d.flush(d.wr)
 		r, ok := d.waitDone(d.wr)
 		if !ok {
